@@ -9,19 +9,20 @@ import (
 )
 
 // value is one of:
-//   *Term                 bool / integer scalars (Bool or BV sort; Int in int-mode)
-//   float64               floating point (concrete only)
-//   complex128            complex (concrete only)
-//   Str                   string
-//   Struct, Array, Tuple  aggregates (by value)
-//   Slice                 slice
-//   Ptr                   pointer (incl. unsafe.Pointer)
-//   PtrInt                uintptr obtained from a pointer
-//   *Map                  map
-//   Iface                 interface value
-//   *Closure, *ssa.Function, *ssa.Builtin  function values
-//   *Chan                 channel
-//   *mapIter, *strIter    range iterators
+//
+//	*Term                 bool / integer scalars (Bool or BV sort; Int in int-mode)
+//	float64               floating point (concrete only)
+//	complex128            complex (concrete only)
+//	Str                   string
+//	Struct, Array, Tuple  aggregates (by value)
+//	Slice                 slice
+//	Ptr                   pointer (incl. unsafe.Pointer)
+//	PtrInt                uintptr obtained from a pointer
+//	*Map                  map
+//	Iface                 interface value
+//	*Closure, *ssa.Function, *ssa.Builtin  function values
+//	*Chan                 channel
+//	*mapIter, *strIter    range iterators
 type value interface{}
 
 type Struct []value
